@@ -24,7 +24,7 @@ RULE = ('directed corpus (boundary texts, undecodable bytes, empty input, every 
         '3 error policies; byte strings = valid encodings, UTF-8 of the same text, truncated, corrupted, random. '
         'non-trivial = non-ASCII content or a BOM codec or undecodable bytes or a non-text value or a slug input '
         'that is not already a slug; distinct by (kind, input, encoding spellings, policy, configuration)')
-REQUIRED_CLAUSES = ['under-warnings-as-errors', 'documented-keyword-call', 'decode-str-unchanged', 'decode-bytes-primary', 'decode-bytes-fallback-utf8',
+REQUIRED_CLAUSES = ['equal-valued-arguments-in-any-order', 'under-warnings-as-errors', 'documented-keyword-call', 'decode-str-unchanged', 'decode-bytes-primary', 'decode-bytes-fallback-utf8',
                     'round-trip', 'transcode-differ', 'transcode-agree-untouched', 'transcode-alias',
                     'to_utf8-str', 'to_utf8-bytes-identity', 'typeerror-safe_decode',
                     'typeerror-safe_encode', 'typeerror-to_utf8', 'typeerror-to_slug',
